@@ -1,5 +1,4 @@
 import collections
-import math
 from abc import ABC, abstractmethod
 from collections.abc import Iterable, Mapping, Sequence
 from enum import Enum, EnumMeta, Flag
@@ -302,9 +301,13 @@ def flag_exact_value_dumper(data):
     return data.value
 
 
-def _extract_non_compound_cases_from_flag(enum: type[FlagT]) -> Sequence[FlagT]:
+def _is_single_bit(value: int) -> bool:
     # zero-valued member (like NONE = 0) has no bits, so it is not a single bit case
-    return [case for case in enum.__members__.values() if case.value > 0 and not math.log2(case.value) % 1]
+    return value > 0 and value & (value - 1) == 0
+
+
+def _extract_non_compound_cases_from_flag(enum: type[FlagT]) -> Sequence[FlagT]:
+    return [case for case in enum.__members__.values() if _is_single_bit(case.value)]
 
 
 class FlagByListProvider(BaseFlagProvider):
